@@ -206,7 +206,7 @@ orders that `Model.lean` hard-codes (offset / uniqueness / deallocation guards o
 and `into_vec`, custom owners rejected before the reservation is taken, `claim` replacing the
 reservation, the reservation moving through `freeze`, the in-place-or-copy split of the mask
 operators, `into_builder` dropping the array first, the one-shot FFI release and the owner clone
-per imported buffer) and the capacity constants are re-extracted from /repo on every run
+per imported buffer, the three branches of `align_nulls`) and the capacity constants are re-extracted from /repo on every run
 (tools/items/C16.py); an edit to any of them makes its item LOST and this obligation fail. -/
 theorem source_shape_intact :
     Generated.C16.WITH_CAPACITY_ROUND_lost = false ∧
@@ -233,7 +233,32 @@ theorem source_shape_intact :
     Generated.C16.SHAPE_FFI_RELEASE_ONCE_lost = false ∧
     Generated.C16.SHAPE_FFI_EXPORT_CLONES_lost = false ∧
     Generated.C16.SHAPE_FFI_IMPORT_OWNER_lost = false ∧
-    Generated.C16.SHAPE_FFI_IMPORT_CLONE_lost = false := by decide
+    Generated.C16.SHAPE_FFI_IMPORT_CLONE_lost = false ∧
+    Generated.C16.SHAPE_ALIGN_NULLS_SAME_lost = false ∧
+    Generated.C16.SHAPE_ALIGN_NULLS_COPY_lost = false ∧
+    Generated.C16.SHAPE_ALIGN_NULLS_CALL_lost = false := by decide
+
+/-! ### (5) validity across the C Data Interface -/
+
+/-- **The exported validity bitmap lines up with the exported array offset**: for every data
+offset, validity offset and length (the validity range lying inside its buffer), bit
+`data_offset + i` of the bitmap `FFI_ArrowArray::new` exports is the validity of element `i` —
+so the consumer, which reads the bitmap at the array's `offset`, sees the exported null
+positions (and hence the exported null count). -/
+theorem align_nulls_exact (dataOff : Nat) (vb : List Bool) (nullsOff len i : Nat)
+    (hin : nullsOff + len ≤ vb.length) (hi : i < len) :
+    (alignNullsBits dataOff vb nullsOff len)[dataOff + i]? = vb[nullsOff + i]? := by
+  unfold alignNullsBits
+  split
+  · subst_vars; rfl
+  · split
+    · subst_vars
+      simp [List.getElem?_take, hi, List.getElem?_drop]
+    · rw [List.getElem?_append_right (by simp)]
+      simp [List.getElem?_take, hi, List.getElem?_drop]
+
+/-- non-vacuity: data offset 8, validity offset 16 (the shape a sliced kernel result has) -/
+example : (alignNullsBits 8 ((List.range 40).map (fun k => k % 5 != 0)) 16 9)[8 + 4]? = some (20 % 5 != 0) := by decide
 
 /-! ### non-vacuity: non-trivial reachable states -/
 
